@@ -1,4 +1,26 @@
-(* C12 - placeholder until the theorems are in place. *)
-Require Import RQ.Base.
-Theorem C12_placeholder : True. Proof. exact I. Qed.
-Print Assumptions C12_placeholder.
+(* C12 - Gradient sources are positioned and coloured as constructed.
+   PARTIAL: the integer stage of the look-up (spread modes, table index) is proved; the tolerance statement as a whole
+   (f32 evaluation of the radial / two-circle / sweep parameter, quantisation of the 256-entry table) is decided by the
+   bit-exact correspondence and the f64 oracle, not proved.  Two dependency defects are open known findings. *)
+Require Import RQ.Base RQ.F32 RQ.Rect RQ.Pixel RQ.PathF RQ.Shader RQ.MiscProofs.
+
+(* Pad clamps the table index to [0,255]: beyond the ends the colour is exactly the first / last entry *)
+Theorem C12_pad_clamps_partial : forall x, apply_spread x SpreadPad = Z.max 0 (Z.min 255 x).
+Proof. exact spread_pad_clamps. Qed.
+Print Assumptions C12_pad_clamps_partial.
+(* Repeat uses frac(t): index mod 256, also for negative t *)
+Theorem C12_repeat_wraps_partial : forall x, apply_spread x SpreadRepeat = x mod 256.
+Proof. exact spread_repeat_wraps. Qed.
+Print Assumptions C12_repeat_wraps_partial.
+(* Reflect mirrors with period 512 *)
+Theorem C12_reflect_mirrors_partial : forall x, apply_spread x SpreadReflect = if x mod 512 <? 256 then x mod 512 else 511 - x mod 512.
+Proof. exact spread_reflect_mirrors. Qed.
+Print Assumptions C12_reflect_mirrors_partial.
+(* linear gradient: the index is the 16.16 x coordinate of the matrix applied to the pixel, divided by 256 (definition) *)
+Theorem C12_linear_index_partial : forall lut s m x y,
+  shade (ShLinear lut s m) x y = zn lut (apply_spread (Z.shiftr (fst (fix_transform m x y)) 8) s).
+Proof. intros. unfold shade. destruct (fix_transform m x y). reflexivity. Qed.
+(* a one-stop gradient is one colour: first and last table entries are the premultiplied, alpha-scaled stop *)
+Example C12_single_stop_lut : let l := build_lut [mk_gstop fhalf 4286611456] 256 in
+  length l = 256%nat /\ nth 0 l 0 = 4286611456 /\ nth 100 l 0 = 4286611456 /\ nth 255 l 0 = 4286611456.
+Proof. vm_compute. repeat split. Qed.
